@@ -32,7 +32,7 @@ REAL = ["bec2format.bf3file / bec2file (writer and reader)", "bec2format.bytes_r
         "register_crypto_plugin (AES adapter, ECC proxies)", "pyaes", "ecdsa (ECC blocks)"]
 STUBS = ["medium: SimFS (crash points, torn writes)", "RNG: SimRng behind register_random_bytes / "
          "os.urandom shims", "RefDir (locates fields; never judges)"]
-PROBES = ["cut-drops-only-zero-bytes", "cut-inside-hex-pair", "cut-splits-crlf", "cut-inside-dir-size",
+PROBES = ["concurrent-readers", "cut-drops-only-zero-bytes", "cut-inside-hex-pair", "cut-splits-crlf", "cut-inside-dir-size",
           "cut-in-comment-header", "cut-after-signature", "damage-accepted-equal",
           "crash-simulated-equals-prefix", "rep-in-length-field", "bec2-header-damage",
           "keybit-on-empty-file"]
@@ -47,6 +47,17 @@ SUFFIXES = ["00", "0", "\n", ",", "FF", "00" * 16, "\r\n", "00\n", " "]
 def gen(st, tier):
     w = st["workload"]
     f = st["faults"]
+    if w.random() < 0.04:
+        # concurrent readers: one reads a damaged file with MAC checking on while another reads with other settings
+        from sim import conc
+        pre, ch = conc.sched_spec(st["schedule"])
+        spec = files.file_spec(w, kind="bf3", p_enc=0.3, max_len=80)
+        if not spec["obj"]["components"]:
+            spec["obj"]["components"].append(G.component_spec(w, max_len=60))
+        spec.update(conc=True, preempt=pre, choices=ch,
+                    victim=f.choice([["rep", f.random(), f.choice(CLASSES)], ["keybit", f.randrange(128)]]),
+                    other=f.choice(["nocheck", "nocheck", "otherkey-nocheck", "plain"]))
+        return spec
     spec = files.file_spec(w, max_len=200 if tier == "quick" else 120)
     if tier == "thorough":
         spec["faults"] = "all"
@@ -124,7 +135,77 @@ def _all_faults(text_len, bin_len, kind):
             yield ["keybit", i]
 
 
+def _run_conc(case):
+    from sim import conc
+    out = Outcome()
+    info = {}
+
+    def make_bodies(s):
+        fs = SimFS()
+        env.bf3file.open = fs.open
+        w = files.write_file(dict(case, via="stream"), fs, env, "a.bf3")
+        orig = w.durable
+        head, binary = files.binary_of(orig)
+        regions, inf = refdir.walk(binary)
+        v = case["victim"]
+        key0 = w.key
+        if v[0] == "rep":
+            pays = [(a, n) for a, n in inf["payloads"] if n] or [(5, len(binary) - 5)]
+            a, n = pays[int(v[1] * len(pays)) % len(pays)]
+            p = a + int(v[1] * n) % max(n, 1)
+            nb = _apply_class(binary[p], v[2])
+            if nb == binary[p]:
+                nb ^= 1
+            fs.files["damaged.bf3"] = files.render(head, binary[:p] + bytes([nb]) + binary[p + 1:], False)
+        else:
+            kb = bytearray(w.key)
+            kb[v[1] // 8] ^= 1 << (v[1] % 8)
+            key0 = bytes(kb)
+            fs.files["damaged.bf3"] = orig
+        info["w"] = w
+        okey = w.key if case["other"] != "otherkey-nocheck" else bytes(16 * [0x5A])
+
+        def victim():
+            try:
+                got = env.bf3file.Bf3File.read_file("damaged.bf3", True, key0)
+            except Exception as e:
+                return ("raised", type(e).__name__)
+            return ("returned", files.compare_read("bf3", w, got))
+
+        def other():
+            got = env.bf3file.Bf3File.read_file("a.bf3", case["other"] == "plain", okey)
+            return ("returned", None if case["other"] == "otherkey-nocheck" else files.compare_read("bf3", w, got))
+        return [victim, other]
+    try:
+        dry, cc, pre = conc.run_conc(make_bodies, case["preempt"], case["choices"], first=0)
+    finally:
+        env.restore_registry()
+    npre = sum(1 for d in cc.decisions if d[3] == "preempt")
+    out.fired["preempt"] += npre
+    out.fired["concurrent-" + case["victim"][0]] += 1
+    out.nontrivial = npre > 0
+    out.probes["concurrent-readers"] += 1
+    out.ev("conc", tuple(cc.decisions), [repr(t.result) for t in cc.threads], cc.aborted)
+    narrow = dict(case, preempt=[["abs", p] if isinstance(p, int) else list(p) for p in pre])
+    if any(t.exc is not None for t in dry.threads):
+        out.ev("sequential-raises")
+        return out
+    if cc.aborted or any(t.exc is not None for t in cc.threads):
+        out.fail("C04.concurrent", "raises", "concurrent readers: %s %s" % (cc.aborted, [t.exc for t in cc.threads]), narrow)
+        return out
+    r0, r1 = cc.threads[0].result, cc.threads[1].result
+    if r0[0] == "returned" and r0[1] is not None and (case["victim"][0] != "keybit" or info["w"].model["components"]):
+        out.fail("C04.accepted-different", "concurrent-%s:%s" % (case["victim"][0], r0[1][0]),
+                 "while another thread was reading (%s), the read of a damaged file with MAC checking on returned "
+                 "different content without error: %s (schedule %s)" % (case["other"], r0[1][1], cc.decisions), narrow)
+    if r1[1] is not None:
+        out.fail("C04.concurrent", "authentic-read-differs", "the concurrent read of the authentic file differs: %s" % (r1[1],), narrow)
+    return out
+
+
 def run(case):
+    if case.get("conc"):
+        return _run_conc(case)
     out = Outcome()
     fs = SimFS()
     env.restore_registry()
@@ -347,6 +428,14 @@ def _cut_class(fkind, orig, n, head, binary, info):
 
 
 def shrink(case):
+    if case.get("conc"):
+        pre = case["preempt"]
+        for i in range(len(pre)):
+            yield dict(case, preempt=pre[:i] + pre[i + 1:])
+        for ns in G.spec_shrinks(case["obj"]):
+            if ns["components"]:
+                yield dict(case, obj=ns)
+        return
     if isinstance(case["faults"], list) and len(case["faults"]) > 1:
         for i in range(len(case["faults"])):
             yield dict(case, faults=[case["faults"][i]])
